@@ -164,7 +164,7 @@ fn run_fail_w<C: CellType>(ops: &[Op], k: i64) -> String {
     format!("completed ops={done} zeroed_requests={n}")
 }
 
-/// tapefail|w|k|ops : the k-th zeroed allocation request fails
+/// tapefail|w|k|ops : the k-th allocation request (alloc, alloc_zeroed or realloc) fails
 pub fn run_fail(f: &[&str]) -> String {
     let w: u32 = f[0].parse().unwrap();
     let k: i64 = f[1].parse().unwrap();
